@@ -77,6 +77,24 @@ def build(llb, d, args=(), tool="llbuild"):
     return rc, after[len(before):], out + err
 
 
+# Printed text is never a basis for a verdict: which commands ran comes from the commands' own run log, success from the
+# exit status, results from file contents, stored state from what a later build does.  The one OPTIONAL refinement (telling
+# "skipped, missing input counted as a failure" from "skipped") reads the diagnostics, and is dropped for a build whose
+# error lines are not all of a known shape (reworded diagnostics): such lines are only counted in the evidence notes.
+KNOWN_ERROR_LINES = [
+    r"process failed: ", r"missing input '[^']*' and no rule to build it$", r"cannot build '[^']*' due to missing input$",
+    r"stopping build due to command failures$", r"build had \d+ command failures$", r"cycle detected among targets:",
+]
+
+
+def diagnostics(txt):
+    """(error lines, number of them that are not of a known shape)"""
+    import re
+    errs = [l.split("error: ", 1)[1] for l in txt.splitlines() if l.startswith("llbuild: error: ")]
+    unknown = sum(1 for e in errs if not any(re.match(p, e) for p in KNOWN_ERROR_LINES))
+    return errs, unknown
+
+
 # =================================================================== (b) decision table
 
 E2_KINDS = ["src_old", "src_new", "src_eq", "missing", "up_ok_old", "up_ok_new", "up_fail", "up_skip", "up_noout"]
@@ -271,7 +289,8 @@ def table_case(llb, d, case):
     cmd = "%d:%d0%d%d" % (variant, 1 if case["generator"] else 0, 0, 1 if case["restat"] else 0)
     req_line = "step %s %s %s %s %s" % (ctx, cmd, prior_val, ",".join(ins) if ins else ".", ";".join(pre[o] for o in outs))
     return dict(request=req_line, ran=ran, rc=rc, executed=("T" in ran),
-                cannot_build=("cannot build 'out1' due to missing input" in txt), text=txt[-800:], log=log,
+                cannot_build=(None if diagnostics(txt)[1] else any(e == "cannot build 'out1' due to missing input" for e in diagnostics(txt)[0])),
+                unrecognised_error_lines=diagnostics(txt)[1], text=txt[-800:], log=log,
                 pre=pre, ins=ins, cancelled=cancelled)
 
 
@@ -419,6 +438,7 @@ def run_table(chk, llb, model, base):
     ndis = 0
     hist = {}
     deferred = []      # correspondence-only verdicts are registered last: verdicts that carry a failing input come first
+    unrecognised = 0
     if bad:
         deferred.append(setup_failure)
     for (c, r), m in zip(good, mo):
@@ -450,7 +470,9 @@ def run_table(chk, llb, model, base):
         if oo_failed and r["executed"]:
             deviation(chk, "order-only-failure-not-propagated",
                       "a command whose order-only input FAILED in this build is executed (-k 0)", rp)
-        if model_runs != r["executed"] or (m == "Task Skip1") != r["cannot_build"]:
+        unrecognised += r["unrecognised_error_lines"]
+        refinement_differs = r["cannot_build"] is not None and (m == "Task Skip1") != r["cannot_build"]
+        if model_runs != r["executed"] or refinement_differs:
             ndis += 1
             if not oracle_bad:
                 deferred.append(("table-correspondence",
@@ -460,6 +482,8 @@ def run_table(chk, llb, model, base):
     chk.cov["table_cases"] = len(cases)
     chk.cov["table_model_outcomes"] = hist
     chk.cov["table_disagreements"] = ndis
+    if unrecognised:
+        chk.notes["unrecognised_error_lines"] = "%d error lines of the tool were not of a known shape; the optional diagnostic refinement (Skip1 vs Skip0) was not applied to those builds" % unrecognised
     if good:
         c, r = good[len(good) // 3]
         chk.sample(dict(kind="decision-table", case=c, model_request=r["request"], executed=r["executed"], rc=r["rc"]))
